@@ -1023,6 +1023,59 @@ def check_r10_counts_used_as_given(facts, rep, crate):
     rep.floor(rid, "operations taking a count or index", n, 6)
 
 
+def check_r11_end_position_is_in_range(facts, rep, crate):
+    """split_to / split_off / truncate / advance / insert at exactly the end are in-range operations of a byte vector (they return or leave
+    an empty part): a bounds test of the argument against the length that diverges (panic / assert) must let `arg == len` through."""
+    rid = "C20.R11"
+    rep.rule(rid, "arguments at the end boundary are in range: in split_to / split_off / truncate / advance / insert no comparison of the "
+                  "position argument with the length sends `arg == len` to a panic (Vec and Bytes return an empty half / do nothing there)")
+    n = 0
+    TRUTH_AT_EQ = {"Lt": False, "Le": True, "Gt": False, "Ge": True, "Eq": True, "Ne": False}
+    FLIP = {"Lt": "Gt", "Le": "Ge", "Gt": "Lt", "Ge": "Le", "Eq": "Eq", "Ne": "Ne"}
+    for b in crate.bodies:
+        if b.name not in ("split_to", "split_off", "truncate", "advance", "insert") or "::tests::" in b.path or b.kind != "AssocFn":
+            continue
+        ints = [i for i in range(1, b.argc + 1) if b.locals[i]["s"] == "usize"]
+        if not ints:
+            continue
+        n += 1
+        rep.analysed(b)
+        tr = Tracer(facts, b)
+        rets = set(r for r in range(len(b.blocks)) if b.term(r)["k"] == "Return")
+        where = "%s (%s)" % (loc_str(b.loc), b.path)
+        bad = None
+        for gb in range(len(b.blocks)):
+            if b.term(gb)["k"] != "SwitchInt":
+                continue
+            g = guard_at(facts, b, tr, gb)
+            if g is None or g.kind != "bool":
+                continue
+            p_ = strip(g.pred)
+            if p_.kind != "bin" or str(p_[1]) not in TRUTH_AT_EQ:
+                continue
+            l_, r_ = strip(p_[2]), strip(p_[3])
+            is_arg = lambda x: x.kind == "param" and x[1] in ints
+            is_len = lambda x: x.kind == "call" and x[6] in ("len", "remaining") or (x.kind == "field" and x[2] == "total_remaining_len")
+            if is_arg(l_) and is_len(r_):
+                op = str(p_[1])
+            elif is_arg(r_) and is_len(l_):
+                op = FLIP[str(p_[1])]
+            else:
+                continue
+            taken = TRUTH_AT_EQ[op]
+            for succ, v in g.edges:
+                if v is taken and not (rets & (b.reachable_from(succ) | {succ})):
+                    bad = (gb, fmt(p_)[:60])
+        key = "end-position-in-range/%s" % b.path.split("::{")[0]
+        if bad:
+            rep.bad(rid, key, "%s (%s)" % (loc_str(b.term(bad[0])["loc"]), b.path),
+                    "`%s` sends an argument equal to the length to a panic: %s at exactly the end is an in-range operation of a byte vector "
+                    "(e.g. a Datagram frame with an empty payload is split there)" % (bad[1], b.name))
+        else:
+            rep.ok(rid, key, where, "arg == len does not diverge", nontrivial=False)
+    rep.floor(rid, "position-taking operations", n, 5)
+
+
 def check(facts, rep, tier, cfg):
     crate = facts.crate("cow_bytes")
     if crate is None:
@@ -1038,6 +1091,7 @@ def check(facts, rep, tier, cfg):
     check_r8(facts, rep, crate)
     check_r9(facts, rep, crate)
     check_r10_counts_used_as_given(facts, rep, crate)
+    check_r11_end_position_is_in_range(facts, rep, crate)
     rep.rule("C20.S7", "no new process-wide mutable state (static cell / lock / once-cell) in the files this property is anchored in")
     import whomay
     whomay.check_new_statics(facts, rep, "C20.S7", "C20")
